@@ -92,6 +92,12 @@ def collect_trajectories(
         rewards.append(reward[jnp.newaxis])
 
         obs = jnp.copy(next_obs)
+        if "final_obs" in info:
+            # bootstrap finished episodes from their own final observation,
+            # not from the reset observation of the next episode
+            for env_idx, finished in enumerate(info["_final_obs"]):
+                if finished:
+                    obs = obs.at[env_idx].set(info["final_obs"][env_idx])
         if logger is not None and "episode" in info:
             finished_reward_len_obs = [
                 (env_idx, r, l, o)
